@@ -189,11 +189,11 @@ def hexs(b):
 class Rig:
     """one BoboDistributedTCP under test, with the peer table put into a known non-trivial state."""
 
-    def __init__(self, recv_bytes=64, queue_cap=0, peers=PEERS):
+    def __init__(self, recv_bytes=64, queue_cap=0, peers=PEERS, aes_key=AES_KEY):
         self.recv_bytes = recv_bytes
         self.queue_cap = queue_cap
         devs = [BoboDevice(addr=p[2], port=p[3], urn=p[0], id_key=p[1]) for p in peers]
-        self.crypto = BoboDistributedCryptoAES(AES_KEY)
+        self.crypto = BoboDistributedCryptoAES(aes_key)
         self.t = BoboDistributedTCP(peers[0][0], StubDecider(), devs, self.crypto, max_size_incoming=queue_cap,
                                     timeout_receive=T_RECV, recv_bytes=recv_bytes)
         for p in peers:
@@ -726,7 +726,7 @@ def run_cases(ctx: Ctx, case_iter, res: Result, oracle=oracle_conn):
     lines, impl_out, owners = [], [], []
     ncases = 0
     for case in case_iter:
-        rig = Rig(case['recv_bytes'], case.get('queue_cap', 0))
+        rig = Rig(case['recv_bytes'], case.get('queue_cap', 0), aes_key=case.get('rig_key', AES_KEY))
         ls, n_setup = model_lines_for_case(rig, case)
         for k, l in enumerate(ls[:n_setup]):
             lines.append(l)
